@@ -475,7 +475,7 @@ func ruleC05Balance(p *Program, r *Run) {
 			}
 			if t.Kind == "semi" {
 				semis++
-				r.Check(ev.FnName == "pql.(*CompileOptions).Compile" && ev.Text == ";", "C05/semicolon", fmt.Sprintf("%s writes %q", ev.FnName, ev.Text), p.Pos(ev.Call.Pos()), "the statement terminator, written once by Compile", "a statement separator is written outside the single terminating write of Compile")
+				r.Check((ev.FnName == "pql.(*CompileOptions).Compile" || p.tailOfCompile(ev.Func)) && ev.Text == ";", "C05/semicolon", fmt.Sprintf("%s writes %q", ev.FnName, ev.Text), p.Pos(ev.Call.Pos()), "the statement terminator, written once by Compile", "a statement separator is written outside the single terminating write of Compile")
 			}
 		}
 		if strings.Contains(ev.Text, "/*") {
@@ -761,6 +761,11 @@ func ruleC04Escape(p *Program, r *Run, g *grammar) {
 						esc[b] += o.Ev.Text
 					}
 				} else if o.Prev == -1 {
+					// the whole token of an empty value written at once (`if s == "" { sb.WriteString("''"); return }`)
+					if wd := want[name].delim; o.Ev.Text == wd+wd && lastBeforeExit[o.Ev.ID] && textParamEmpty(p, fd, o.St) {
+						opens[wd], closes[wd] = true, true
+						continue
+					}
 					opens[o.Ev.Text] = true
 				}
 				if lastBeforeExit[o.Ev.ID] && (f == nil || !f.HasEq) {
@@ -793,6 +798,8 @@ func ruleC04Escape(p *Program, r *Run, g *grammar) {
 			r.Check(escapeDecodesTo(esc[c], c), "C04/escape", fmt.Sprintf("%s rewrites %q", fn, c), p.Pos(fd.Pos()), fmt.Sprintf("%q is written as %q, which the dialect decodes back to the byte", c, esc[c]), fmt.Sprintf("the byte %q is written as %q inside a token delimited by %s: the dialect does not decode that back to the byte, so the token carries a different value than the one written", c, esc[c], w.delim))
 		}
 		r.Check(copied, "C04/escape", fn+" copies other bytes", p.Pos(fd.Pos()), "every other byte is copied unchanged", "no byte is copied: the value is lost")
+		okArg, whyArg := p.sanitizerKeepsArgument(fd)
+		r.Check(okArg, "C04/escape", fn+" escapes the text it is given", p.Pos(fd.Pos()), "the text parameter is only ever shortened from the front or cut into pieces; nothing computed from it takes its place", whyArg)
 	}
 	r.Floor("C04/escape", 8)
 }
@@ -819,13 +826,9 @@ func ruleC04Numbers(p *Program, r *Run) {
 	info := pkg.TypesInfo
 	n := 0
 	for _, fd := range AllFuncs(pkg) {
-		ast.Inspect(fd.Body, func(x ast.Node) bool {
-			cl, ok := x.(*ast.CompositeLit)
-			if !ok || TypeStr(info.TypeOf(cl)) != "parser.Token" {
-				return true
-			}
+		for _, cl := range p.tokenLits(fd.Body) {
 			if k := litField(info, cl, "Kind"); k == nil || constName(info, k) != "TokenNumber" {
-				return true
+				continue
 			}
 			n++
 			v := litField(info, cl, "Value")
@@ -847,8 +850,7 @@ func ruleC04Numbers(p *Program, r *Run) {
 				}
 			}
 			r.Check(ok2, "C04/numbers", fmt.Sprintf("%s number token #%d", FuncName(pkg, fd), n), p.Pos(cl.Pos()), "value from "+how, "a number token's value is "+how+", not the normalised decimal spelling: the raw lexeme (hex, leading zeros) would reach the SQL")
-			return true
-		})
+		}
 	}
 	r.Floor("C04/numbers", 5)
 }
@@ -1266,4 +1268,165 @@ func (p *Program) chunkIdiomOf(fd *ast.FuncDecl) *chunkIdiom {
 			}}
 	}
 	return found
+}
+
+// sanitizerKeepsArgument: what a sanitizer escapes is the text it was given. The string parameter is assigned only
+// reslices of itself (the chunked copy), and every local that is computed from it is a reslice, a conversion or the
+// result of the replacer - never the result of another function of the text (trimming, folding, collapsing).
+func (p *Program) sanitizerKeepsArgument(fd *ast.FuncDecl) (bool, string) {
+	info := p.PQL.TypesInfo
+	var param types.Object
+	for _, f := range fd.Type.Params.List {
+		for _, n := range f.Names {
+			if b, ok := info.Defs[n].Type().Underlying().(*types.Basic); ok && b.Info()&types.IsString != 0 {
+				param = info.Defs[n]
+			}
+		}
+	}
+	if param == nil {
+		return false, "the sanitizer has no string parameter"
+	}
+	derived := map[types.Object]bool{param: true}
+	mentions := func(x ast.Expr) bool {
+		found := false
+		ast.Inspect(x, func(n ast.Node) bool {
+			if id, ok := n.(*ast.Ident); ok && derived[objOf(info, id)] {
+				found = true
+			}
+			return !found
+		})
+		return found
+	}
+	// is x the text (or a piece of it) unchanged: a derived variable, a reslice or index of one, a conversion
+	var piece func(x ast.Expr) bool
+	piece = func(x ast.Expr) bool {
+		switch v := ast.Unparen(x).(type) {
+		case *ast.Ident:
+			return derived[objOf(info, v)]
+		case *ast.SliceExpr:
+			return piece(v.X)
+		case *ast.IndexExpr:
+			return piece(v.X)
+		case *ast.CallExpr:
+			if tv, ok := info.Types[v.Fun]; ok && tv.IsType() && len(v.Args) == 1 {
+				return piece(v.Args[0])
+			}
+			// the result of a strings.Replacer with a constant table is accounted for by the escape set
+			if f := Callee(info, v); f != nil && f.Type().(*types.Signature).Recv() != nil && strings.HasSuffix(TypeStr(f.Type().(*types.Signature).Recv().Type()), "strings.Replacer") {
+				return true
+			}
+			// searches report a position, not text
+			if f := Callee(info, v); f != nil && f.Pkg() != nil && (f.Pkg().Path() == "strings" || f.Pkg().Path() == "bytes") && strings.HasPrefix(f.Name(), "Index") {
+				return true
+			}
+			if IsBuiltinCall(info, v, "len") || IsBuiltinCall(info, v, "min") || IsBuiltinCall(info, v, "max") {
+				return true
+			}
+		}
+		return false
+	}
+	ok, why := true, ""
+	note := func(lhs ast.Expr, rhs ast.Expr, pos token.Pos) {
+		o := objOf(info, lhs)
+		if o == nil {
+			return
+		}
+		isText := false
+		switch u := o.Type().Underlying().(type) {
+		case *types.Basic:
+			isText = u.Info()&types.IsString != 0
+		case *types.Slice:
+			if b, isB := u.Elem().Underlying().(*types.Basic); isB && (b.Kind() == types.Byte || b.Kind() == types.Rune || b.Kind() == types.Uint8 || b.Kind() == types.Int32) {
+				isText = true
+			}
+		}
+		if !isText || !mentions(rhs) {
+			return
+		}
+		if piece(rhs) {
+			derived[o] = true
+			return
+		}
+		ok = false
+		why = fmt.Sprintf("%s: %s = %s replaces the text by something computed from it: the quoted token no longer decodes to the name or value that was written", p.Pos(pos), o.Name(), exprStr(rhs))
+	}
+	for pass := 0; pass < 3; pass++ {
+		ast.Inspect(fd.Body, func(n ast.Node) bool {
+			switch v := n.(type) {
+			case *ast.AssignStmt:
+				if len(v.Lhs) == len(v.Rhs) {
+					for i := range v.Lhs {
+						note(v.Lhs[i], v.Rhs[i], v.Pos())
+					}
+				}
+			case *ast.ValueSpec:
+				for i, nm := range v.Names {
+					if i < len(v.Values) {
+						note(nm, v.Values[i], v.Pos())
+					}
+				}
+			}
+			return true
+		})
+	}
+	return ok, why
+}
+
+// textParamEmpty: the sanitizer's string parameter is known to be empty in st.
+func textParamEmpty(p *Program, fd *ast.FuncDecl, st *State) bool {
+	info := p.PQL.TypesInfo
+	for _, f := range fd.Type.Params.List {
+		for _, n := range f.Names {
+			o := info.Defs[n]
+			if b, ok := o.Type().Underlying().(*types.Basic); !ok || b.Info()&types.IsString == 0 {
+				continue
+			}
+			k := p.ObjKey(o)
+			if g := st.Get("len(" + k + ")"); g != nil && g.Hi != nil && *g.Hi == 0 {
+				return true
+			}
+			if g := st.Get(k); g != nil && g.HasEq && g.Eq == `""` {
+				return true
+			}
+		}
+	}
+	return false
+}
+
+// tailOfCompile: fd is a helper whose only call sites are `return fd(...)` statements of Compile (or of another
+// such helper): what it writes last is what Compile writes last.
+func (p *Program) tailOfCompile(fd *ast.FuncDecl) bool {
+	return p.tailOfCompileN(fd, 0)
+}
+
+func (p *Program) tailOfCompileN(fd *ast.FuncDecl, depth int) bool {
+	if fd == nil || depth > 2 {
+		return false
+	}
+	pkg := p.PQL
+	self := FuncObj(pkg, fd)
+	if self == nil {
+		return false
+	}
+	compile := p.MustFunc(pkg, "CompileOptions.Compile")
+	sites, ok := 0, true
+	for _, cfd := range AllFuncs(pkg) {
+		ast.Inspect(cfd.Body, func(n ast.Node) bool {
+			call, isCall := n.(*ast.CallExpr)
+			if !isCall || Callee(p.Info, call) != self {
+				return true
+			}
+			sites++
+			ret, isRet := p.Parent(call).(*ast.ReturnStmt)
+			if !isRet || len(ret.Results) != 1 {
+				ok = false
+				return true
+			}
+			if cfd != compile && !p.tailOfCompileN(cfd, depth+1) {
+				ok = false
+			}
+			return true
+		})
+	}
+	return ok && sites > 0
 }
